@@ -69,7 +69,7 @@ func (g *gen) randValueType() Ty { return valueTypes[g.pick(len(valueTypes))] }
 
 // stmt emits one statement (possibly compound). tail: may this statement end the function with returns.
 func (g *gen) stmt(s *scope, fs *fstate, ind int, depth int) {
-	switch g.pick(49) {
+	switch g.pick(50) {
 	case 0, 1: // x := e
 		t := g.randValueType()
 		e := g.expr(s, t, 2)
@@ -711,6 +711,21 @@ func (g *gen) stmt(s *scope, fs *fstate, ind int, depth int) {
 		g.line(ind, "%s := append(%s, %s)", b, a, g.expr(s, U64, 1))
 		g.line(ind, "%s := append(%s, %s)", c, a, g.expr(s, U64, 1))
 		g.line(ind, "%s := %s[1]*3 + %s[1] + uint64(len(%s)) + uint64(cap(%s))", n, b, c, b, c)
+		g.declare(s, Var{Name: n, T: U64})
+	case 49: // the disk FFI: write a block, read it (or another one) back
+		if g.ndisk >= 2 {
+			return // blocks are 4096 cells in the model: keep programs small
+		}
+		g.ndisk++
+		blk, rb, n := g.fresh("bk"), g.fresh("rb"), g.fresh("v")
+		a := g.pick(30)
+		g.key("ffi.disk")
+		g.line(ind, "%s := make([]byte, disk.BlockSize)", blk)
+		g.line(ind, "machine.UInt64Put(%s, %s)", blk, g.expr(s, U64, 1))
+		g.line(ind, "disk.Write(%d, %s)", a, blk)
+		g.line(ind, "%s[0] = 7", blk)
+		g.line(ind, "%s := disk.Read(%d)", rb, []int{a, a, (a + 1) % 30}[g.pick(3)])
+		g.line(ind, "%s := machine.UInt64Get(%s) + disk.Size() + uint64(len(%s))", n, rb, rb)
 		g.declare(s, Var{Name: n, T: U64})
 	}
 }
